@@ -460,6 +460,17 @@ fn masked_packet(e: &Ev, p: &Packet) -> String {
     format!("{}:{:04x}:{}", if p.is_error { 'E' } else { 'D' }, p.device_address, body)
 }
 
+const BIG_DATA: [usize; 10] = [65535, 65534, 65530, 65529, 65531, 65000, 32768, 28666, 4096, 300];
+
+/// an event of kind `i % 16`; every 61st case a data event with a long payload given as `g<seed>x<len>`
+fn gen_event_text(r: &mut Rng, i: u64) -> String {
+    if i % 61 == 4 {
+        let len = BIG_DATA[(i / 61 % 10) as usize];
+        return format!("k4:{:04x}:{:04x}:{:04x}:g{}x{}", r.u16(), r.u16(), len, r.below(1000), len);
+    }
+    Ev::gen((i % 16) as usize, r).show()
+}
+
 fn exec_ev_enc(t: &[&str]) -> Option<String> {
     let e = Ev::parse(t.first()?)?;
     Some(match guard(|| e.to_packet()) {
@@ -570,6 +581,13 @@ fn ev_dec_sweep() -> Vec<(usize, Packet)> {
         sweep.push((12, pk(vec![0, 12, 0x12, 0x34, 0, 7, 3, 0, 0, 0, tag, 0, 0, 0])));
         sweep.push((12, pk(vec![0, 12, 0x12, 0x34, 0, 7, 3, 0, tag, 0, 1, 0, 0, 0])));
     }
+    for declared in [0xffffu16, 0xfffe, 0xfffb, 0xfffa, 0xfff9, 0x8000, 0x0100] {
+        for extra in [0usize, 1, 7] {
+            let mut d = vec![0, 4, 0x12, 0x34, (declared >> 8) as u8, declared as u8];
+            d.extend(std::iter::repeat(0x5a).take(extra));
+            sweep.push((4, pk(d)));
+        }
+    }
     for k in 0..16usize {
         for len in 0..=70usize {
             for codes in [[0u8, k as u8], [0, (k as u8 + 1) % 16], [k as u8, 0], [1, k as u8], [0xff, k as u8], [0, k as u8 | 0x10]] {
@@ -593,6 +611,16 @@ fn gen_ev_dec(r: &mut Rng, i: u64, sweep: &[(usize, Packet)]) -> String {
     if (i as usize) < sweep.len() {
         let (k, p) = &sweep[i as usize];
         return format!("k{} {}", k, text::packet(p));
+    }
+    if i % 61 == 4 {
+        // long data events: exact encodings and off-by-one lengths around the 16-bit limit
+        let declared = BIG_DATA[(i / 61 % 10) as usize];
+        let actual = match r.below(4) {
+            0 => declared - 1,
+            1 => declared + 1,
+            _ => declared,
+        };
+        return format!("k4 D:{:04x}:0004{:04x}{:04x}+g{}x{}", r.u16(), r.u16(), declared, r.below(1000), actual);
     }
     // a valid encoding of some kind, possibly mutated, shown to some decoder (mostly its own)
     let e = Ev::gen((i % 16) as usize, r);
@@ -1413,8 +1441,8 @@ impl Gen {
             "to_frames" => format!("to_frames {}", gen_packet_text(r, i)),
             "frag_rt" => format!("frag_rt {} {}", ["direct", "can", "usart"][(i % 3) as usize], gen_packet_text(r, i / 3)),
             "builder" => format!("builder {}", gen_builder(r)),
-            "ev_enc" => format!("ev_enc {}", Ev::gen((i % 16) as usize, r).show()),
-            "ev_rt" => format!("ev_rt {}", Ev::gen((i % 16) as usize, r).show()),
+            "ev_enc" => format!("ev_enc {}", gen_event_text(r, i)),
+            "ev_rt" => format!("ev_rt {}", gen_event_text(r, i)),
             "ev_dec" => format!("ev_dec {}", gen_ev_dec(r, i, &self.sweep)),
             "ev_cross" => format!("ev_cross {}", gen_ev_cross(r, i)),
             "rx_usart" => format!("rx usart {}", byte_script(&gen_byte_history(r, false))),
